@@ -33,6 +33,7 @@ type c05Challenge struct {
 	Chal    string
 	Issued  time.Time
 	Used    bool
+	WA      bool // a WebAuthn login challenge (the U2F and WebAuthn challenges of a user share one server-side entry)
 }
 
 type c05Sys struct {
@@ -173,6 +174,13 @@ func (s *c05Sys) Ops() []string {
 				ops = append(ops, fmt.Sprintf("u2fFinish(%s,%s)", pr, dev))
 			}
 		})
+		// the same tokens through the WebAuthn login ceremony
+		cookieIdx(func(i int) {
+			ops = append(ops, fmt.Sprintf("waBegin(c%d)", i))
+			for _, dev := range []string{"A", "B"} {
+				ops = append(ops, fmt.Sprintf("waFinish(c%d,%s)", i, dev))
+			}
+		})
 		ops = append(ops, "tick(31s)", "sweep")
 	case "bootstrap":
 		cookieIdx(func(i int) {
@@ -271,7 +279,7 @@ func (s *c05Sys) Canon() string {
 	}
 	var ch []string
 	for _, c := range s.chals {
-		ch = append(ch, fmt.Sprintf("%s:%v:%d", c.ForUser, c.Used, int(vclock.Now().Sub(c.Issued)/time.Second)))
+		ch = append(ch, fmt.Sprintf("%s:%v:%d:%v", c.ForUser, c.Used, int(vclock.Now().Sub(c.Issued)/time.Second), c.WA))
 	}
 	// accepted codes by owner and by the 30 s step they belong to, relative to now
 	// (which code was spent matters for what a later replay means)
@@ -481,6 +489,58 @@ func (s *c05Sys) Apply(op string) (string, string, string) {
 		if v := c05SetCookie(resp); v != "" {
 			if _, l, _ := c05Decode(s.w, v); l&AuthTypeTOTP != 0 {
 				s.totpAccepted[owner+"|"+code] = true
+			}
+		}
+	case "waBegin":
+		chal, code := s.w.vfWebauthnBegin(cookies[0])
+		if chal != "" {
+			s.chals = append(s.chals, c05Challenge{ForUser: carried.Sub, Chal: chal, Issued: vclock.Now(), WA: true})
+			if len(s.chals) > 3 {
+				s.chals = s.chals[len(s.chals)-3:]
+			}
+		}
+		return fmt.Sprintf("%d", code), "", ""
+	case "waFinish":
+		famBit, site = AuthTypeU2F, "webauthnAuthFinish"
+		// the newest WebAuthn challenge the adversary has seen
+		var ch *c05Challenge
+		for i := range s.chals {
+			if s.chals[i].WA {
+				ch = &s.chals[i]
+			}
+		}
+		if ch == nil {
+			return "n/a", "", ""
+		}
+		tok, devOwner := s.tokA, c05A
+		if args[1] == "B" {
+			tok, devOwner = s.tokB, c05B
+		}
+		resp = s.w.Do(vfReq{Method: "POST", Path: webAuthnAuthFinishPath, Cookies: cookies, RawBody: tok.WebauthnAssertion(vfOrigin, ch.Chal), ContentType: "application/json"}.Build())
+		age := vclock.Now().Sub(ch.Issued)
+		newestFor := func(u string) *c05Challenge {
+			var n *c05Challenge
+			for i := range s.chals {
+				if s.chals[i].ForUser == u {
+					n = &s.chals[i]
+				}
+			}
+			return n
+		}
+		wasUsed := ch.Used
+		justFor = func(u string) bool {
+			// the statement asks for: this user's device, a challenge issued for this user, not used, not expired
+			return devOwner == u && ch.ForUser == u && !wasUsed && age <= 30*time.Second
+		}
+		whyFor = func(u string) string {
+			return fmt.Sprintf("WebAuthn assertion by the device of %q over a challenge issued for %q (age %v, used=%v, superseded=%v) presented with a cookie of %q", devOwner, ch.ForUser, age, wasUsed, newestFor(u) == nil || newestFor(u).Chal != ch.Chal, u)
+		}
+		if devOwner == carried.Sub && age > 30*time.Second {
+			site += "|challenge-older-than-30s"
+		}
+		if v := c05SetCookie(resp); v != "" {
+			if _, l, _ := c05Decode(s.w, v); l&AuthTypeU2F != 0 {
+				ch.Used = true
 			}
 		}
 	case "u2fBegin":
@@ -722,8 +782,8 @@ func init() {
 	vfRegister(&vfeng.Check{
 		ID:    "C05",
 		Level: "model_checking",
-		Rule:  "case-twin users (normalisation disabled): CLI token and TOTP code of one presented in a session of the other; explicit-state BFS with canonical-state deduplication over histories of two users and three cookie jars on the real handlers, one search per second-factor family, for TOTP and bootstrap OTP including a primary store that answers reads but refuses writes (Symantec VIP OTP+push against a stateful fake, local TOTP, U2F with real soft tokens, bootstrap OTP, CLI token); the adversary attaches any cookie/push cookie it ever obtained to any request, or two session cookies of different users in either order; after every transition each Set-Cookie is decoded and every gained factor bit must be justified by ground truth (whose code / push / device / value it was, freshness, first use); canonical state = profiles' replay counters, cookie pools as (subject, level), push transactions (owner, approved, expired), challenges, rate-limit ages, clock",
-		Assumptions: []string{"the victim approves only pushes on her own device; the fake VIP lets only the owner approve", "the adversary holds at most one password session per user plus its upgrades (re-logins differ only in issue time)", "WebAuthn/FIDO2 and Okta flows are not driven (CBOR attestation and an Okta backend are not modelled)"},
+		Rule:  "case-twin users (normalisation disabled): CLI token and TOTP code of one presented in a session of the other; explicit-state BFS with canonical-state deduplication over histories of two users and three cookie jars on the real handlers, one search per second-factor family, for TOTP and bootstrap OTP including a primary store that answers reads but refuses writes (Symantec VIP OTP+push against a stateful fake, local TOTP, U2F with real soft tokens incl. the WebAuthn login ceremony for the same tokens, bootstrap OTP, CLI token); the adversary attaches any cookie/push cookie it ever obtained to any request, or two session cookies of different users in either order; after every transition each Set-Cookie is decoded and every gained factor bit must be justified by ground truth (whose code / push / device / value it was, freshness, first use); canonical state = profiles' replay counters, cookie pools as (subject, level), push transactions (owner, approved, expired), challenges, rate-limit ages, clock",
+		Assumptions: []string{"the victim approves only pushes on her own device; the fake VIP lets only the owner approve", "the adversary holds at most one password session per user plus its upgrades (re-logins differ only in issue time)", "WebAuthn registration / FIDO2-only credentials and Okta flows are not driven (CBOR attestation and an Okta backend are not modelled); WebAuthn LOGIN with U2F-registered tokens is"},
 		Bounds: func(tier string) map[string]interface{} {
 			m := map[string]interface{}{}
 			for _, f := range c05Families {
@@ -772,7 +832,7 @@ func init() {
 				switch {
 				case strings.HasPrefix(op, "totp("):
 					fam = "totp"
-				case strings.HasPrefix(op, "u2f"):
+				case strings.HasPrefix(op, "u2f"), strings.HasPrefix(op, "wa"):
 					fam = "u2f"
 				case strings.HasPrefix(op, "bootstrapOtp"):
 					fam = "bootstrap"
